@@ -56,7 +56,12 @@ impl Stats {
         for (k, v) in o.per_config {
             *self.per_config.entry(k).or_default() += v;
         }
-        self.samples.extend(o.samples);
+        // keep samples from different tasks (configurations / shapes), at most 48
+        for smp in o.samples {
+            if self.samples.len() < 48 {
+                self.samples.push(smp);
+            }
+        }
         self.avoided += o.avoided;
         self.desyncs += o.desyncs;
         if self.first_desync.is_none() {
@@ -170,7 +175,7 @@ fn account(stats: &mut Stats, task: &Task, out: &CaseOut, picks: &[u32], trace: 
     *stats.per_config.entry(task.entry.name.to_string()).or_default() += 1;
     stats.avoided += out.avoided as u64;
     if out.nontrivial {
-        if stats.nontrivial.insert(hash_case(task.entry.name, task.shape, picks)) && stats.samples.len() < 3 {
+        if stats.nontrivial.insert(hash_case(task.entry.name, task.shape, picks)) && stats.samples.is_empty() {
             stats.samples.push(trace.to_string());
         }
     }
@@ -351,6 +356,31 @@ pub fn jstr(s: &str) -> String {
     o
 }
 
+/// up to n samples, preferring different configuration/shape prefixes
+fn diverse(samples: &[String], n: usize) -> Vec<&String> {
+    let mut out: Vec<&String> = Vec::new();
+    let mut seen: Vec<&str> = Vec::new();
+    for s in samples {
+        let key = s.split(']').next().unwrap_or("");
+        if !seen.contains(&key) {
+            seen.push(key);
+            out.push(s);
+            if out.len() == n {
+                return out;
+            }
+        }
+    }
+    for s in samples {
+        if out.len() == n {
+            break;
+        }
+        if !out.iter().any(|o| std::ptr::eq(*o, s)) {
+            out.push(s);
+        }
+    }
+    out
+}
+
 pub fn stats_json(prop: &str, tier: &str, seed: u64, profile: &str, rule: &str, bound: &str, wall_s: f64, stats: &Stats) -> String {
     let mut o = String::new();
     let _ = write!(o, "{{\n \"property_id\": {}, \"tier\": {}, \"seed\": {}, \"profile\": {},\n", jstr(prop), jstr(tier), seed, jstr(profile));
@@ -377,7 +407,7 @@ pub fn stats_json(prop: &str, tier: &str, seed: u64, profile: &str, rule: &str, 
     }
     let _ = write!(o, "}},\n \"samples\": [");
     first = true;
-    for s in stats.samples.iter().take(12) {
+    for s in diverse(&stats.samples, 12) {
         let _ = write!(o, "{}{}", if first { "" } else { ", " }, jstr(s));
         first = false;
     }
